@@ -4,7 +4,7 @@ set -e
 V=${VERIF_ROOT:-/verif}
 cd $V/coq
 [ -f Makefile ] || coq_makefile -f _CoqProject -o Makefile >/dev/null
-timeout 3000 make -j16 1>&2
+timeout 3000 make -j16 Extract/Extract.vo 1>&2   # only what the extraction depends on: a broken lemma elsewhere is judged per property
 mkdir -p Extract/build
 if [ ! -x Extract/build/driver ] || [ model.ml -nt Extract/build/driver ] || [ Extract/driver.ml -nt Extract/build/driver ]; then
   cp model.ml model.mli Extract/driver.ml Extract/build/
